@@ -9,6 +9,8 @@ import hashlib
 
 from nacl.signing import SigningKey, VerifyKey
 
+from ..translate import arith2
+
 ID_MAGIC = bytes.fromhex('c6b41348')      # pub.ed25519
 SIGN_MAGIC = bytes.fromhex('706e0bc5')    # ton.blockId (c50b6e70 little endian)
 
@@ -21,15 +23,23 @@ SPEC = dict(
              '(c12_accept_iff; for sets with distinct node ids the weight is shown to be the combined weight of the DISTINCT members who signed, '
              'c12_accept_iff_members); separate corollaries give rejection of invalid / unknown / duplicated signers, of the empty set and of exactly '
              '2/3, acceptance of every list meeting the condition, and order independence. The model is tied to the code by differential '
-             'correspondence on real Ed25519 scenarios (sets of 1..100, weights 1/equal/skewed/2^63, thresholds at 2/3 +-1 unit, all fault kinds).',
+             'correspondence on real Ed25519 scenarios (sets of 1..100, weights 1/equal/skewed/2^63, thresholds at 2/3 +-1 unit, all fault kinds). '
+             'In addition the four decision lines of the source are re-translated from check_proof.py on every run (Generated/SigCheck.lean): the '
+             'acceptance test `signed_weight * 3 > total_weight * 2` is proved equal to the strict two-thirds test for ALL weights (c12_src_threshold), '
+             'the three `if ...: raise` of the signature loop are proved to fire exactly on an unknown id / an id seen before / a failed verification '
+             '(c12_src_loop_tests), and the hand model is proved to decide with exactly these lines in the order of the code (c12_src_model).',
         level_note='Trusted: Lean kernel (propext, Classical.choice, Quot.sound); Model/Sig.lean as a faithful hand transcription of '
-                   'check_block_signatures (checked by sampled correspondence only, ~3100 scenarios quick / ~15000 thorough); PyNaCl Ed25519 and '
+                   'check_block_signatures (loops, dictionary and set handling: checked by sampled correspondence only, ~3100 scenarios quick / '
+                   '~15000 thorough; its four decision lines: regenerated from the source and proved for all inputs, trusting the translator '
+                   'harness/translate/pyarith.py, which reads `node is None`, `node_id in seen`, `result` as opaque truth values); PyNaCl Ed25519 and '
                    'hashlib (the theorems treat verify and SHA-256 as parameters: unforgeability is NOT proved, only that the decision logic '
                    'consults verify with the right key and payload); the Python harness. Validator lists with a repeated key are outside the '
                    'property domain (the reference node refuses such sets); the theorems still cover them (last entry is credited, every entry '
                    'counts in the total) and the harness checks the library against that.',
-        technique='Lean 4 proof (hand model, induction over the signature list) + differential correspondence with the library',
+        technique='Lean 4 proof (hand model, induction over the signature list) + differential correspondence with the library '
+                  '+ source-regenerated decision lines',
     ),
+    translators=[('check_proof.py check_block_signatures tests->Generated/SigCheck.lean', arith2.regenerator('SigCheck'))],
     design_ref='DESIGN.md §6 C12',
     rule='scenario = (validator list with real Ed25519 keys, weights mode, block id, signer subset chosen at/around the 2/3 threshold, one fault kind, '
          'order); fault kinds: none, bit-flipped signature, signature over another block / without magic, foreign signer, foreign signature under a '
@@ -37,7 +47,8 @@ SPEC = dict(
          'distinct = distinct (keys, weights, signatures, order); non-trivial = at least one validator and one signature',
     trusted_base=['Model/Sig.lean mirrors check_block_signatures / calculate_node_id_short by hand',
                   'verify (Ed25519) and H (SHA-256) are parameters of every theorem; driver: H = executable SHA-256, verify = table computed with PyNaCl',
-                  'PyNaCl (libsodium) Ed25519, hashlib.sha256'],
+                  'PyNaCl (libsodium) Ed25519, hashlib.sha256',
+                  'harness/translate/pyarith.py + arith.py/arith2.py (Python comparisons -> Lean) for the c12_src_* theorems'],
     assumptions=['Ed25519 is unforgeable (only used to interpret "verify = true" as "the validator signed"; not needed by any theorem)',
                  'ValidatorDescr.weight is a non-negative int (uint64 in the TL-B scheme)',
                  'correspondence is sampled differential testing of model vs library'],
@@ -427,9 +438,36 @@ MODES = ['one', 'equal', 'skewed', 'huge', 'random']
 TARGETS = ['above', 'above', 'above', 'exact', 'exact', 'below', 'all', 'none']
 
 
+def src_search(ctx, pool):
+    """Search mode only: the (signed, total) weight pairs on which the regenerated acceptance test (Generated/SigCheck.lean) differs
+    from the strict two-thirds test, replayed as two-validator scenarios (one signs with weight `signed`, the other holds the rest);
+    a differing loop test is replayed as the corresponding fault scenario.  True = a concrete failing input was found."""
+    found = arith2.search_points(ctx, ['SigCheck'])
+    n0 = len(ctx.failures)
+    rng = ctx.rng
+    for pt in (found.get('sigAccept') or [])[:12]:
+        s, t = pt['signed'], pt['total']
+        if s > t:
+            continue
+        root, file = rng.randbytes(32), rng.randbytes(32)
+        sk, pk = pool.keys[0]
+        nodes = [(pk, s)] + ([(pool.keys[1][1], t - s)] if t > s else [])
+        check_one(ctx, dict(kind='src-threshold', expect=None, why=f'one validator of weight {s} signs, total weight {t}', nodes=nodes,
+                            sigs=[(node_id(pk), sk.sign(SIGN_MAGIC + root + file).signature)], wc=-1, shard=-2 ** 63, seqno=1, root=root, file=file))
+    for name, fault in (('sigUnknown', 'foreign'), ('sigDuplicate', 'dup'), ('sigDuplicate', 'none'), ('sigInvalid', 'bitflip'), ('sigInvalid', 'none')):
+        if found.get(name):
+            for n in (3, 4):
+                sc = scenario(rng, pool, n, 'one', 'all', fault)
+                if sc is not None:
+                    check_one(ctx, sc)
+    return len(ctx.failures) > n0
+
+
 def run(ctx):
     from pytoniq_core.proof.check_proof import calculate_node_id_short
     pool = Pool(ctx.rng)
+    if ctx.search and src_search(ctx, pool):
+        return
     for sk, pk in pool.keys[:20]:
         ctx.case(('node-id', pk), sample=None)
         if calculate_node_id_short(pk) != node_id(pk):
